@@ -3,6 +3,7 @@ import HtpModel.Conn.Res
 import HtpModel.Lemmas.Driver
 import HtpModel.Lemmas.Consumed
 import HtpModel.Lemmas.ConsumedOut
+import HtpModel.Lemmas.BufInv
 
 namespace Htp.C09
 open Htp.Conn Htp.Gen
@@ -162,5 +163,24 @@ example :
     let c : Conn := { out := { status := STREAM_DATA, cur := (b!"HTTP/1.1 2"), len := 10, tx := some 0 }, outState := .line,
                       txs := [some { uid := 0 }] }
     (resStateFn {} c).2 = Rc.dataBuffer ∧ (resStateFn {} c).1.out.read = 10 := by decide
+
+/-- **C09 (DATA means the whole chunk was consumed), whole request data call**: htp_connp_req_data on ANY state, with any chunk of data and
+    any callback policy, that returns HTP_STREAM_DATA has its read cursor exactly at the end of the chunk - the consumed count equals the
+    length offered. The cursor hypothesis of the per-pass theorem is gone (a call stores a well-formed chunk and every state function keeps
+    it so - Lemmas/CursorInv, Lemmas/BufInv); what remains is the line-buffer bound carried from call to call (C10_req_call_buffer_bounded) and
+    that no pass of THIS call (`CallReach`) finds a counted body state owing nothing or less: the states are entered with a positive amount
+    and left at zero, which rests on the Content-Length / chunk-length parsers and is corresponded, not proved. -/
+theorem C09_req_call_data_means_consumed (cfg : Cfg) (d : Bytes) (c : Conn) (hs : (d.length : Int) < 18446744073709551616)
+    (hb : inBufLen c ≤ cfg.fieldLimitHard)
+    (ho : ∀ c', CallReach cfg (reqWakeOther (reqStoreChunk (some d) d.length c)) c' → OwedPos c')
+    (hdata : (reqData cfg (some d) d.length c).2 = STREAM_DATA) :
+    (reqData cfg (some d) d.length c).1.inn.read = (reqData cfg (some d) d.length c).1.inn.len :=
+  reqData_data_consumed cfg d c hs hb ho hdata
+
+/-- non-vacuity: the call of the earlier example returns STREAM_DATA with read = len = 5 -/
+example :
+    let c : Conn := { inState := .line, inn := { status := STREAM_DATA, tx := some 0 }, txs := [some { uid := 0 }] }
+    (reqData {} (some (b!"GET /")) 5 c).2 = STREAM_DATA ∧ (reqData {} (some (b!"GET /")) 5 c).1.inn.read = 5 ∧
+    (reqData {} (some (b!"GET /")) 5 c).1.inn.len = 5 := by decide
 
 end Htp.C09
